@@ -116,7 +116,31 @@ def _loss_kind(q, src0, node):
     tail = lines[loc.end_ln][loc.end_col:]
     if '#' in tail and not tail[:tail.index('#')].strip(' \t,)]}'):
         mine.append(tail[tail.index('#'):].rstrip())
-    return '.trivia_comment' if all(t in mine for _, t in lost) else ''
+    if all(t in mine for _, t in lost):
+        return '.trivia_comment'
+    # comments between the element and its own grouping parentheses (nothing but parentheses, blanks and comments there)
+    own = []
+    try:
+        il = tuple(node.loc)[:4]
+        pl = tuple(loc)[:4]
+        for ln_ in range(pl[0], pl[2] + 1):
+            text = lines[ln_]
+            a_ = pl[1] if ln_ == pl[0] else 0
+            b_ = pl[3] if ln_ == pl[2] else len(text)
+            for c0, c1 in ((a_, il[1] if ln_ == il[0] else (b_ if ln_ < il[0] else a_)),
+                           ((il[3] if ln_ == il[2] else (a_ if ln_ > il[2] else b_)), b_)):
+                seg = text[c0:c1] if c1 > c0 else ''
+                if '#' in seg:
+                    own.append(seg[seg.index('#'):].rstrip())
+            if ln_ == pl[2]:
+                tail = text[pl[3]:]
+                if '#' in tail and not tail[:tail.index('#')].strip(' \t,)]}'):
+                    own.append(tail[tail.index('#'):].rstrip())
+    except Exception:
+        own = []
+    if all(t in mine or t in own for _, t in lost):
+        return '.own_pars_comment'
+    return ''
 
 
 def copy_step(sw, path, cat):
